@@ -130,6 +130,11 @@ func (dt DateTime) TryEqual(input Any) (bool, bool) {
 		}
 		return dtComponents[i] == valComponents[i], true
 	}
+	// All shared components are equal: the values are equal when they have the
+	// same precision (e.g. with and without a zone offset), unknown otherwise.
+	if dateTimeMap[dt.l] == dateTimeMap[val.l] {
+		return true, true
+	}
 	return false, false
 }
 
@@ -160,6 +165,10 @@ func (dt DateTime) Less(input Any) (Boolean, error) {
 			continue
 		}
 		return dtComponents[i] < valComponents[i], nil
+	}
+	// All shared components are equal: not less when the precisions are the same.
+	if dateTimeMap[dt.l] == dateTimeMap[val.l] {
+		return false, nil
 	}
 	return false, ErrMismatchedPrecision
 }
